@@ -73,6 +73,7 @@ struct Runner {
         g_sid = sid;
         long long ret = VOID, tret = VOID;
         bool known = true;
+        std::vector<int> rl_main;
         if (c.op == "stamp") {
             ret = (long long)box->stamp();
             if (twin) tret = (long long)twin->stamp();
@@ -80,7 +81,9 @@ struct Runner {
             box->add_more_props(std::to_string(++box->propcount));
             if (twin) twin->add_more_props(std::to_string(++twin->propcount));
         } else {
+            last_list().clear();
             ret = do_kernel_call(*box->m, c, &known);
+            rl_main = last_list();
             if (!known) { fprintf(stderr, "unknown op %s\n", c.op.c_str()); exit(3); }
             if (twin && !is_bu_toggle(c.op)) tret = do_kernel_call(*twin->m, c, &known);
         }
@@ -90,6 +93,7 @@ struct Runner {
             j.kv("chk", c.chk == 1);
             vx::write_call(j, c);
             j.kv("ret", ret);
+            if (c.op == "status_gc") j.kint_arr("rl", rl_main);
             j.key("post"); dump_state(j, *box, true, with_props);
             if (twin) { j.kv("tret", tret); j.key("tw"); dump_state(j, *twin, false, with_props); }
             if (qlevel > 0 && c.chk == 1) { j.key("q"); vq::dump_queries(j, *box->m, qlevel); }
